@@ -103,6 +103,12 @@ EvRaw ==
   /\ (Ev.kind \in {"violation", "badcommand"} => Ev.rs[1].t = "err")
   /\ UNCHANGED <<S, devs>>    \* generators use inline commands without effect on later checks (connection ends here)
 
+(* the server instance was started with requirepass *)
+EvConfig ==
+  /\ Ev.k = "config"
+  /\ S' = [S EXCEPT !.pass = Ev.pass]
+  /\ UNCHANGED devs
+
 EvNote == Ev.k = "note" /\ UNCHANGED <<S, devs>>
 
 EvDropped ==  \* the client saw the server close the connection
@@ -113,7 +119,7 @@ EvDropped ==  \* the client saw the server close the connection
 TraceNext ==
   /\ l <= N
   /\ l' = l + 1
-  /\ (EvOpen \/ EvClose \/ EvReset \/ EvCmd \/ EvNote \/ EvDropped \/ EvUnlogged \/ EvChk \/ EvPush \/ EvQuiesce \/ EvGone \/ EvRaw)
+  /\ (EvOpen \/ EvClose \/ EvReset \/ EvCmd \/ EvNote \/ EvDropped \/ EvUnlogged \/ EvChk \/ EvPush \/ EvQuiesce \/ EvGone \/ EvRaw \/ EvConfig)
   /\ IF l > TLCGet(1) THEN TLCSet(1, l) /\ TLCSet(3, S') ELSE TRUE   \* deepest matched event (last conjunct!)
 
 TraceSpec == TraceInit /\ [][TraceNext]_vars
